@@ -70,6 +70,14 @@ Theorem C05_sequence_is_last : forall evs e b,
 Proof. exact last_seq. Qed.
 Print Assumptions C05_sequence_is_last.
 
+(** The L2 manager applies every stream item to the book of the instrument it names and to no
+    other: after ANY stream, book [i] is what it would be had it received exactly its own events
+    (so C05_refines_map applies to it); reconnecting notices change nothing. *)
+Theorem C05_manager_routes : forall evs bs i d, (i < length bs)%nat ->
+  nth i (fold_left mgr_step evs bs) d = fold_left update (route i evs) (nth i bs d).
+Proof. exact mgr_routes. Qed.
+Print Assumptions C05_manager_routes.
+
 (** Link between the theorems and the correspondence check: on every well-formed case on which
     the implementation's observed output equals the model's ([corr_b]), the observed output
     satisfies the property oracle ([prop_b]) — the oracle demands no more than the model gives. *)
